@@ -22,6 +22,8 @@ def with_parts(rng, cfg):
     if rng.random() < 0.4:
         n = len(cfg["batch"])
         cfg["obs"] = dict(inputs=[[dy(rng) for _ in range(nv)] for _ in range(n)], vals=[[float(rng.randint(-2, 2)) for _ in range(nout)] for _ in range(n)])
+        if rng.random() < 0.6:       # observed rows of the parameter the equation reads: they belong to the observation term only
+            cfg["obs"]["arows"] = [dy(rng, 2, 6) for _ in range(n)]
     cfg["dyn"] = rng.random() < 0.9
     return cfg
 
